@@ -24,7 +24,7 @@ from checks import c12
 
 BINS = ["drive_update"]
 
-GEN_CFG = ["SPECIFICATION GSpec", "CONSTANTS", "  Apex <- AP", "  InitZones <- P_Zones", "  InitSers <- P_Sers",
+GEN_CFG = ["SPECIFICATION GSpec", "CONSTANTS", "  Apex <- AP", "  InitZones <- P_Zones", "  InitSers <- P_Sers", "  Signeds <- P_Signeds",
            "  Msgs <- P_Zones", "  MsgsAt <- P_MsgsAt", "  SimPre <- P_SimPre", "  SimUpd <- P_SimUpd", "  MaxMsgs = {n}",
            "INVARIANT Emit GenSound", "CHECK_DEADLOCK FALSE"]
 
@@ -110,7 +110,7 @@ def run(res, tier, seed):
         def one(g):
             name, zones, sers, msgsat, n = g[0], g[1], g[2], g[3], g[4]
             defs = dict(EXTRA_DEFS)
-            defs.update({"P_Zones": zones, "P_Sers": sers, "P_MsgsAt": msgsat, "P_SimPre": "{}", "P_SimUpd": "{}"})
+            defs.update({"P_Zones": zones, "P_Sers": sers, "P_MsgsAt": msgsat, "P_SimPre": "{}", "P_SimUpd": "{}", "P_Signeds": "{FALSE}"})
             tla, cfg = vlib.wrapper(wd, "G_" + name, "Gen_Journal", defs, [ln.format(n=n) for ln in GEN_CFG])
             cases, st = vlib.gen(tla, cfg, wd, workers=1, timeout=1500)
             for i, c in enumerate(cases):
